@@ -351,8 +351,57 @@ def run_history(c):
     return ";".join(problems) if problems else None
 
 
+def run_soup(c):
+    """triangle soups for from_mesh / from_triangles: a closed box assembled from a half shell and its mirror image (x -> -x), so
+    that the points on the mirror plane appear as +0.0 and as -0.0; a box cut by a coordinate plane the same way"""
+    import magpylib as magpy
+
+    lo, hi = c["ext"]
+    X = [0.0, hi[0]]
+    pts = np.array([(x, y, z) for x in X for y in (lo[1], hi[1]) for z in (lo[2], hi[2])], float)
+    cf = [(0, 1, 3), (0, 3, 2), (4, 6, 7), (4, 7, 5), (0, 4, 5), (0, 5, 1), (2, 3, 7), (2, 7, 6), (0, 2, 6), (0, 6, 4), (1, 5, 7), (1, 7, 3)]
+    v, f = convex_mesh(pts, cf)
+    half = [t for t in f if not np.all(v[list(t)][:, 0] == 0.0)]              # open at the plane x = 0
+    soupA = v[np.array(half)]
+    soupB = soupA.copy()
+    soupB[..., 0] = soupB[..., 0] * -1.0                                        # mirror: 0.0 becomes -0.0
+    soupB = soupB[:, [0, 2, 1], :]                                              # keep the winding outwards
+    soup = np.concatenate([soupA, soupB])
+    if c["shuffle"]:
+        soup = soup[np.argsort((np.arange(len(soup)) * 7) % len(soup))]
+    pol = (0.3, -0.2, 0.8)
+    try:
+        if c["via"] == "from_mesh":
+            m = magpy.magnet.TriangularMesh.from_mesh(mesh=soup, polarization=pol, check_open="ignore", check_disconnected="ignore",
+                                                      check_selfintersecting="ignore", reorient_faces="ignore")
+        else:
+            tris = [magpy.misc.Triangle(vertices=t, polarization=pol) for t in soup]
+            m = magpy.magnet.TriangularMesh.from_triangles(triangles=tris, polarization=pol, check_open="ignore",
+                                                           check_disconnected="ignore", check_selfintersecting="ignore", reorient_faces="ignore")
+    except Exception as e:
+        return f"raised {type(e).__name__}: {e}"[:200]
+    problems = []
+    if len(m.vertices) != 12:
+        problems.append(f"{len(m.vertices)}-vertices-instead-of-12 (coincident points not merged)")
+    for k in ("open", "disconnected", "selfintersecting"):
+        if getattr(m, "status_" + k) is not False:
+            problems.append(f"status_{k}={getattr(m, 'status_' + k)}")
+    vol = 2 * hi[0] * (hi[1] - lo[1]) * (hi[2] - lo[2])
+    if abs(signed_volume(np.array(m.vertices), np.array(m.faces)) - vol) > 1e-12 * vol:
+        problems.append("signed-volume-wrong")
+    if not problems:
+        cub = magpy.magnet.Cuboid(dimension=(2 * hi[0], hi[1] - lo[1], hi[2] - lo[2]), polarization=pol,
+                                  position=(0, (hi[1] + lo[1]) / 2, (hi[2] + lo[2]) / 2))
+        pts_o = np.array([(3.1, 0.4, 0.3), (-2.2, 1.7, -0.9), (0.3, -2.5, 1.1)])
+        if np.max(np.abs(m.getH(pts_o) - cub.getH(pts_o))) > 1e-10 * np.max(np.abs(cub.getH(pts_o))):
+            problems.append("field-differs-from-the-box")
+    return ";".join(problems) if problems else None
+
+
 def work(c):
     try:
+        if c["part"] == "soup":
+            return run_soup(c)
         if c["part"] == "history":
             return run_history(c)
         return run_orient(c) if c["part"] == "orient" else run_derived(c)
@@ -435,6 +484,10 @@ def enumerate_cases(tier):
                               "unused": where, "unused_where": "inside", "hull": True})
                 cases.append({"part": "orient", "mesh": name, "order": base, "flipmask": 0, "renum": list(range(nv))[::-1],
                               "unused": where, "unused_where": "inside", "hull": True})
+    for ext in (((0, 0, 0), (1.0, 1.2, 0.8)), ((0, -0.6, -0.4), (0.7, 0.6, 0.4))):
+        for via in ("from_mesh", "from_triangles"):
+            for shuffle in (False, True):
+                cases.append({"part": "soup", "ext": [list(ext[0]), list(ext[1])], "via": via, "shuffle": shuffle})
     # read / repair histories on a mesh built with reorient_faces='skip'
     for name in ("tetra", "cube"):
         nf = len(M[name][1])
@@ -511,7 +564,9 @@ def run(tier, seed):
         if r.startswith("HARNESS"):
             harness.append(f"{c}: {r}")
             continue
-        if c["part"] == "history":
+        if c["part"] == "soup":
+            key = f"C16|soup|{c['via']}|{r.split(';')[0].split(' ')[0]}"
+        elif c["part"] == "history":
             key = f"C16|history|{c['mesh']}|{r.split(';')[0]}"
         elif c["part"] == "orient":
             key = f"C16|orient|{c['mesh']}|{r.split(';')[0]}"
@@ -521,7 +576,7 @@ def run(tier, seed):
     north = sum(1 for c in cases if c["part"] == "orient")
     cov = {
         "evaluations": len(cases),
-        "distinct_nontrivial": sum(1 for c in cases if c["part"] in ("derived", "history") or c["flipmask"] or c["order"] != sorted(c["order"])),
+        "distinct_nontrivial": sum(1 for c in cases if c["part"] in ("derived", "history", "soup") or c["flipmask"] or c["order"] != sorted(c["order"])),
         "rule": "one evaluation = one TriangularMesh construction from a variant of a mesh whose outward faces are known by "
                 "construction; variants are distinct (face order, flip subset, vertex renumbering | deleted faces | part "
                 "interleaving, flips, offset, scale); non-trivial = anything but the canonical input",
